@@ -47,6 +47,30 @@ prop(
     thorough=dict(checks=6000, shards=16),
 )
 
+prop(
+    "C03",
+    title="Expansion leaves only resolvable cycle cut-points; acyclic specs end $ref-free",
+    technique="property-based testing (rapid) with a model-based cut-point oracle: parallel walk of input and output, every remaining $ref resolved with the reference model and checked to lie on a cycle of the input graph; byte-determinism over repeated expansions of acyclic inputs",
+    rule=GRAPH_RULE + "50% of graphs are wired acyclic by construction. Free-form payloads containing the key $ref are planted. Non-trivial = cyclic graph, or acyclic graph with >=2 documents; distinct by hash of the canonical JSON of all documents",
+    design_ref="DESIGN.md §4 C03",
+    level_text="exploration: random reference graphs (half acyclic by construction, half with arbitrary cycle topologies incl. cycles spanning documents and entered from parameters/responses/path items); every remaining $ref is checked for resolvability from the root, for designating a node on a cycle of the input (computed by the model, not by the implementation), and for its spelling; acyclic inputs are checked $ref-free and byte-deterministic over 5 expansions",
+    level_note="cycle membership is computed on the reference model's graph of positions; the spelling rule demanded without AbsoluteCircularRef is: fragment-only into the root, relative (no scheme, no absolute path) for documents below the root's directory",
+    quick=dict(checks=600, shards=4),
+    thorough=dict(checks=5000, shards=16),
+)
+
+prop(
+    "C08",
+    title="Expansion never fails silently: bad $refs become errors or stay in place",
+    technique="property-based testing (rapid) with fault injection: generated reference graphs with $refs redirected to missing/ill-typed targets and documents refused by the loader; error-ness and continue-mode output compared with the reference model's reachability analysis",
+    rule=GRAPH_RULE + "Faults: each $ref is rewritten with probability 4% to a missing pointer, a missing document, or a target that is a string/number/boolean/array; each non-root document is refused by the loader with probability 6%; ContinueOnError drawn. Non-trivial = at least one unresolvable $ref is reachable and at least one root element depends on none; distinct by hash of the case",
+    design_ref="DESIGN.md §4 C08",
+    level_text="exploration over (graph, fault set, mode): strict mode is checked in both directions (error iff the model finds a reachable unresolvable $ref); continue mode is checked for nil error, for every unresolvable schema $ref being left verbatim at the position the unfolding puts it, and for all unaffected elements being bisimilar to the input",
+    level_note="'has to follow' is the model's path-cut unfolding from the root document's definitions, parameters, responses and paths; elements depending on an unresolvable parameter/response/path-item $ref are exempt in continue mode (the statement pins schema $refs only)",
+    quick=dict(checks=700, shards=4),
+    thorough=dict(checks=6000, shards=16),
+)
+
 
 def manifest():
     allids = []
